@@ -27,9 +27,9 @@ inductive Follows (ds : Nat) : Prog → Option Path → List Op → CallRes → 
   | raise (e t) : Follows ds (.raise e) t [] (.error e) none
   | query (q k t ops r w ret exc ans) : RecOK ds q ret exc ans → Follows ds (k ans) t ops r w →
       Follows ds (.query q k) t (.simple q ret exc ans :: ops) r w
-  | writeSome (b k p ops r w) : Follows ds k (some p) ops r w →
-      Follows ds (.write b k) (some p) ops r (some (w.getD b))
-  | writeNone (b k ops r w) : Follows ds k none ops r w → Follows ds (.write b k) none ops r w
+  | writeSome (b mt k p ops r w) : Follows ds k (some p) ops r w →
+      Follows ds (.write b mt k) (some p) ops r (some (w.getD b))
+  | writeNone (b mt k ops r w) : Follows ds k none ops r w → Follows ds (.write b mt k) none ops r w
   | bfSetupFail (path cmp fname args kwargs body k t ops r w e) :
       Follows ds (k (.error e)) t ops r w →
       Follows ds (.buildFile path cmp fname args kwargs body k) t
